@@ -8,7 +8,7 @@
 From Coq Require Import List NArith ZArith Arith Bool Lia String.
 From AHK Require Import Lib.Res Lib.ByteStr Model.Request
   Proofs.RequestLib Proofs.RequestParse Proofs.RequestJson Proofs.RequestIds
-  Model.RequestSession Proofs.RequestSession.
+  Model.RequestSession Proofs.RequestSession Model.RequestArgs Proofs.RequestArgs.
 Import ListNotations.
 
 (* request(): request line CRLF Host CRLF {name ": " value CRLF} CRLF body, nothing else,
@@ -187,6 +187,69 @@ Example c09_history_nonvacuous :
   /\ nth 2 (spec None evs) (Some []) = None.
 Proof. cbv zeta. repeat split; vm_compute; reflexivity. Qed.
 
+(* ---------------------------------------------------------------------------
+   Argument kinds (Model/RequestArgs.v): the pairing API takes an Iterable; a one-shot
+   iterable (generator, map object, iter(...)) yields its items on the first complete
+   walk only.  "For all characteristic id sets / write and subscribe payloads issued
+   through the pairing API": the request written is the canonical request for what the
+   caller asked, whatever kind of iterable carried it. *)
+
+(* the walk made after n earlier complete walks sees every asked item iff the argument
+   is re-iterable or n = 0 (so a payload must be built on the FIRST walk) *)
+Theorem nth_walk_sees : forall (A : Type) n (it : iterable A),
+    fst (walk (after_walks n it)) =
+    match it_kind it, n with
+    | Reiterable, _ => asked it
+    | OneShot, O => asked it
+    | OneShot, S _ => []
+    end.
+Proof. exact nth_walk_lemma. Qed.
+
+(* reads and writes build the request on their first (only) walk: for EVERY argument kind
+   the bytes written are those of the canonical request for all asked ids / writes *)
+Theorem get_characteristics_any_iterable : forall host k ids,
+    wf_host host = true ->
+    map (fun r => parse_req (render_req r)) (pairing_get_characteristics host (mkIter k ids))
+    = [Some (api_get_characteristics host ids)].
+Proof. exact get_bytes_any_iterable_lemma. Qed.
+
+Theorem put_characteristics_any_iterable : forall host k cs,
+    wf_host host = true ->
+    map (fun r => parse_req (render_req r)) (pairing_put_characteristics host (mkIter k cs))
+    = [Some (api_put_characteristics host cs)].
+Proof. exact put_bytes_any_iterable_lemma. Qed.
+
+(* subscribe / unsubscribe walk the argument twice (set(...) first, then groupby): a
+   re-iterable argument gives the canonical per-aid requests of the asked ids; a one-shot
+   argument is exhausted by the first walk and NO request is written.  Either way nothing
+   is written that was not asked for. *)
+Theorem update_subscriptions_reiterable : forall host ev ids,
+    pairing_update_subscriptions host ev (mkIter Reiterable ids) = api_update_subscriptions host ev ids.
+Proof. exact subs_reiterable_lemma. Qed.
+
+Theorem update_subscriptions_one_shot_writes_nothing : forall host ev ids,
+    pairing_update_subscriptions host ev (mkIter OneShot ids) = [].
+Proof. exact subs_one_shot_lemma. Qed.
+
+Theorem update_subscriptions_any_iterable : forall host ev arg,
+    pairing_update_subscriptions host ev arg = api_update_subscriptions host ev (asked arg)
+    \/ pairing_update_subscriptions host ev arg = [].
+Proof. exact subs_any_iterable_lemma. Qed.
+
+(* non-vacuity: two writes through a generator give the same 2-entry request as through a
+   list (not the empty payload); a generator passed to subscribe writes nothing, a list three
+   requests; the third walk over a one-shot argument is empty *)
+Example c09_args_nonvacuous :
+  let host := lit "fd00::20" in
+  let cs := [(1, 9, JBool true); (1, 10, JInt 40)]%Z in
+  pairing_put_characteristics host (mkIter OneShot cs) = pairing_put_characteristics host (mkIter Reiterable cs)
+  /\ map render_req (pairing_put_characteristics host (mkIter OneShot cs))
+     <> map render_req (pairing_put_characteristics host (mkIter OneShot []))
+  /\ List.length (pairing_update_subscriptions host true (mkIter Reiterable [(1, 2); (1, 3); (2, 1); (1, 4)]%Z)) = 3
+  /\ List.length (pairing_update_subscriptions host true (mkIter OneShot [(1, 2); (1, 3); (2, 1); (1, 4)]%Z)) = 0
+  /\ fst (walk (after_walks 2 (mkIter OneShot cs))) = [].
+Proof. cbv zeta. repeat split; try (vm_compute; reflexivity). vm_compute. discriminate. Qed.
+
 Print Assumptions render_shape.
 Print Assumptions render_req_shape.
 Print Assumptions conn_get_is_render.
@@ -212,3 +275,9 @@ Print Assumptions handoff_disconnected.
 Print Assumptions history_requests_parse.
 Print Assumptions host_header_of_peer.
 Print Assumptions host_header_names_peer.
+Print Assumptions nth_walk_sees.
+Print Assumptions get_characteristics_any_iterable.
+Print Assumptions put_characteristics_any_iterable.
+Print Assumptions update_subscriptions_reiterable.
+Print Assumptions update_subscriptions_one_shot_writes_nothing.
+Print Assumptions update_subscriptions_any_iterable.
